@@ -108,8 +108,8 @@ func (ch *Chain) bridgeConfig(g M) ophosttypes.BridgeConfig {
 		Challenger:            c.Addr(absx.Str(g["challenger"])),
 		Proposer:              c.Addr(absx.Str(g["proposer"])),
 		BatchInfo:             ophosttypes.BatchInfo{Submitter: c.submitter(absx.Str(g["bsub"])), ChainType: chainType(absx.Str(g["bchain"]))},
-		SubmissionInterval:    time.Duration(absx.Int(g["interval"])) * 500 * time.Millisecond,
-		FinalizationPeriod:    time.Duration(absx.Int(g["period"])) * 500 * time.Millisecond,
+		SubmissionInterval:    TicksDuration(absx.Int(g["interval"])),
+		FinalizationPeriod:    TicksDuration(absx.Int(g["period"])),
 		SubmissionStartHeight: uint64(absx.Int(g["startH"])),
 		OracleEnabled:         absx.Bool(g["oracle"]),
 		Metadata:              c.Meta(absx.Map(g["meta"])),
@@ -385,7 +385,7 @@ func (ch *Chain) Exec(e M) Outcome {
 		}
 		hdr := ch.Ctx.BlockHeader()
 		hdr.Height++
-		hdr.Time = hdr.Time.Add(time.Duration(dt) * 500 * time.Millisecond)
+		hdr.Time = AddTicks(hdr.Time, dt)
 		ch.Ctx = ch.Ctx.WithBlockHeader(hdr)
 		return Outcome{OK: true, Resp: M{"now": TimeTick(hdr.Time)}}
 	case "ChannelOpen", "ChannelSend", "ChannelTake":
@@ -456,10 +456,10 @@ func (ch *Chain) withdrawalEvent(evs []abci.Event) M {
 // ---- projection ----------------------------------------------------------------------------------
 
 func ticks(d time.Duration) any {
-	if d%(500*time.Millisecond) != 0 {
+	if d%tickDuration() != 0 {
 		return "?" + d.String()
 	}
-	return int64(d / (500 * time.Millisecond))
+	return int64(d / tickDuration())
 }
 
 func (ch *Chain) outRec(o ophosttypes.Output) M {
@@ -475,7 +475,11 @@ func (ch *Chain) Project() M {
 	f := ch.F
 	ctx := ch.Ctx
 	k := f.Host
-	st := M{"now": TimeTick(ctx.BlockTime()), "h": ctx.BlockHeight(), "cap": c.Cap(), "maxB": ch.Cfg.MaxB, "feeDenom": ch.Cfg.FeeDenom}
+	sec := int64(1) // ticks per second-granularity step of the finality comparison: 2 half-second ticks, or 1 when a tick is whole seconds
+	if TickMs == 500 {
+		sec = 2
+	}
+	st := M{"now": TimeTick(ctx.BlockTime()), "h": ctx.BlockHeight(), "cap": c.Cap(), "maxB": ch.Cfg.MaxB, "feeDenom": ch.Cfg.FeeDenom, "sec": sec}
 	devs := M{}
 	for _, d := range ch.Cfg.Devs {
 		devs[d] = true
